@@ -95,7 +95,12 @@ def check(tier, seed):
                 s = junk() + fr()
             elif kind == 'long_two':
                 # a busy line: several hundred bytes of other material (invalid sentences, filler) before / between the two frames
-                fill = lambda: b''.join(G.rand_junk(rng)[0] if rng.random() < 0.5 else nm(False) for _ in range(rng.randrange(8, 30)))
+                def fill():
+                    # filler pieces are joined back to back: the joint must not form a sync pair (the property's proviso)
+                    while True:
+                        f_ = b''.join(G.rand_junk(rng)[0] if rng.random() < 0.5 else nm(False) for _ in range(rng.randrange(8, 30)))
+                        if b'\xb5\x62' not in f_:
+                            return f_
                 two = rng.choice([(fr, fr), (nm, nm)])
                 s = fill() + two[0]() + fill() + two[1]()
             elif kind == 'two_ubx':
